@@ -77,6 +77,7 @@ package store
 //@   ensures newest_segment_is_kept: len(ds.aofSegs) <= old(len(ds.aofSegs)) && (old(len(ds.aofSegs)) > 0 ==> len(ds.aofSegs) > 0 && ds.aofSegs[len(ds.aofSegs) - 1] == old(ds.aofSegs[len(ds.aofSegs) - 1]))
 //@   ensures snapshot_before_a_hole_is_dropped: len(ds.aofSegs) < old(len(ds.aofSegs)) ==> ds.rdb == nil
 //@   ensures a_snapshot_is_kept_only_if_the_log_continues_it: ds.rdb != nil && len(ds.aofSegs) > 0 ==> ds.aofSegs[0].left <= ds.rdb.left
+//@   ensures what_is_handed_back_for_unlinking_exists: forall k int :: 0 <= k && k < len(result1) ==> result1[k] != nil
 //@   ensures snapshot_kept_otherwise: len(ds.aofSegs) == old(len(ds.aofSegs)) && old(ds.rdb != nil && len(ds.aofSegs) > 0 ==> ds.aofSegs[0].left <= ds.rdb.left) ==> ds.rdb == old(ds.rdb)
 //@   loop 1:
 //@     invariant scanned_suffix_is_contiguous: 0 - 1 <= i && i < len(ds.aofSegs) && (len(ds.aofSegs) > 0 ==> 0 <= i) && ds.aofSegs == old(ds.aofSegs) && ds.rdb == old(ds.rdb) && segsWF(ds) && (forall k int :: i < k && k < len(ds.aofSegs) ==> ds.aofSegs[k].left == ds.aofSegs[k - 1].left + ds.aofSegs[k - 1].rtSize.v)
@@ -499,3 +500,23 @@ package store
 //@   assert at call SetRunId: a_lookup_opens_the_cache_only_under_an_id_it_is_filed_under: statOk == 1 && new == lastJoinId
 //@   loop 1:
 //@     invariant walking: s != nil && 0 - 1 <= rangeindex && rangeindex < len(ids)
+
+// ---- what a reopened directory is indexed as (C08) ------------------------------------------------
+// A size of -1 marks the segment a writer of THIS process has open; the checksum / size check of a
+// reader is skipped for it. Segments found on disk when a cache is reopened were written by an earlier
+// process: none of them is indexed as being written, whatever state their header is in.
+//@ func newDataSet(rdb, aofs) (ds)
+//@   trusted by reading: an index over the segments handed in, sorted by their left end (sort.Slice and the map are outside the subset)
+//@   modifies heap
+//@   ensures an_index: ds != nil && fresh(ds) && segsWF(ds) && ds.aofMap != nil
+//@ func body:Storer.initDataSet
+//@   arith int
+//@   properties C08
+//@   requires nonnil: s != nil
+//@   modifies heap
+//@   assert at call SetSize optional: a_segment_found_on_disk_is_not_indexed_as_being_written: s >= 0
+//@   loop 1:
+//@     invariant handed_back_for_unlinking: s != nil && (forall k int :: 0 <= k && k < len(dAofs) ==> dAofs[k] != nil)
+//@ func dataSetRdb.Size(self) (n)
+//@   trusted frame (reads the snapshot's size under its lock)
+//@   modifies nothing
